@@ -24,7 +24,7 @@ class RespSlicer(Slicer):
     def control(self, k, b, indent):
         t = self.toks[k]
         if t.text == "if" and self.toks[k + 1].text == "let":
-            open_ = self.find0(k + 1, b, lambda u: u.text == "{")
+            open_ = self._body_open(k, b)
             if ID_TEST.match(self.text(k + 1, open_)):
                 self.n_id_tests += 1
                 c = self.close(open_)
